@@ -210,6 +210,13 @@ def run_case(case: dict[str, Any]) -> dict[str, Any]:
                 return cli.bluetooth_device_disconnect(a, timeout=TIMEOUT)
             raise ValueError(name)
 
+        if case.get("free_subscription"):
+            # the application also watches the proxy's connection slots (as Home Assistant does); the proxy reports all of them free - which says
+            # nothing about a connect attempt in progress
+            cli.subscribe_bluetooth_connections_free(lambda f, l: None)
+            sim.run_for(0.001)
+            dconn.send_msg(pb.BluetoothConnectionsFreeResponse(free=3, limit=3))
+            sim.run_for(0.001)
         for i, op in enumerate(ops):
             recs.append(sim.call(f"{op['op']}#{i}", lambda i=i, op=op: start(i, op)))
         sim.run_for(0.001)
@@ -435,6 +442,8 @@ def gen_case(rng: Any) -> dict[str, Any]:
     case: dict[str, Any] = {"ops": ops, "replies": replies, "answer_disconnect": rng.random() < 0.5, "values": list(vals)}
     if rng.random() < 0.15:
         case["newer_firmware"] = True
+    if rng.random() < 0.2:
+        case["free_subscription"] = True
     if rng.random() < 0.12:
         case["timeout"] = 12.0
         case["reply_gap"] = rng.choice([1.4, 0.7, 3.0])
